@@ -202,6 +202,10 @@ class World:
             return list(bytes(v))
         ty = self.types[t]
         if ty["kind"] == "enum":
+            import enum as _enum
+            if isinstance(v, _enum.Enum) and type(v).__name__ != t:
+                # a value of ANOTHER enum class sits in this field (equal as an integer, but not what the declaration says)
+                return ["UNEXPECTED", f"{type(v).__name__}.{v.name}", "field of type " + t]
             return lim(int(v))
         return self.project(v)
 
@@ -531,8 +535,22 @@ class World:
                     via_write = list(w3.to_bytearray())
                 except Exception as e:
                     via_write = "EXC " + type(e).__name__
+            twice = None
+            if isinstance(ser, list):
+                # "serializing the same instance twice yields identical bytes" - also when both go to the same writer
+                w4 = self.writer_mod.EoWriter()
+                try:
+                    w4.add_byte(9)
+                    cls.serialize(w4, obj)
+                    n1 = len(w4.to_bytearray())
+                    cls.serialize(w4, obj)
+                    b4 = list(w4.to_bytearray())
+                    twice = [b4[1:n1], b4[n1:]]
+                except Exception as e:
+                    twice = "EXC " + type(e).__name__
             return {"proj": before, "ser": ser, "proj_after_serialize": self.project(obj), "repr_changed_by_serialize": repr(obj) != rep0,
-                    "write_differs": via_write is not None and via_write != ser}
+                    "write_differs": via_write is not None and via_write != ser,
+                    "same_writer_twice": "" if twice is None or (isinstance(twice, list) and twice[0] == ser and twice[1] == ser) else (twice if isinstance(twice, str) else f"into a writer that already holds a byte: first {twice[0]}, then {twice[1]}; into a fresh writer {ser}")}
         the_obj = obj
         if c.get("blind") and c.get("from_bytes") is None:
             # the instance is NOT looked at before the history starts: the baseline is a twin built from a private copy of the arguments
